@@ -81,7 +81,7 @@ def make_overlay(repo, dest, contracts, child_modules):
 
 
 # the check name of code inside a trait impl contains spaces (`<T as Trait>::f.assertion.1`): match the whole line
-CHECK_RE = re.compile(r"^Check (\d+): (.+)\n\s+- Status: (\w+)\n\s+- Description: \"(.*)\"\n(?:\s+- Location: (.*)\n)?", re.M)
+CHECK_RE = re.compile(r"^Check (\d+): ([^\n]+)\n[ \t]+- Status: (\w+)\n[ \t]+- Description: \"((?:[^\n]|\n)*?)\"\n(?:[ \t]+- Location: ([^\n]*)\n)?(?=\n|\Z)", re.M)   # descriptions can span lines
 
 
 def parse_output(out):
